@@ -1,4 +1,1 @@
 import Pyrealb.Model.Basic
-import Pyrealb.Model.OneOf
-import Pyrealb.Lemmas.OneOfRev
-import Pyrealb.Lemmas.OneOfBridge
